@@ -74,6 +74,10 @@ func (f *Maplist) Call(s *slip.Scope, args slip.List, depth int) (result slip.Ob
 			ca[i-1] = l2[n:]
 		}
 		rlist[n] = caller.Call(s, ca, d2)
+		if _, exit := rlist[n].(slip.NonLocalExit); exit {
+			// return-from, return or go: control is leaving the function.
+			return rlist[n]
+		}
 	}
 	return rlist
 }
